@@ -571,6 +571,9 @@ type FW struct {
 	Late bool `json:"late,omitempty"`
 	// Detached: the context is of a hand-written type (sk.Detach)
 	Detached bool `json:"detached,omitempty"`
+	// CancelFirst (with Late): the context is cancelled as soon as it is made; by the time of the call its deadline
+	// has passed as well. It was cancelled, and that is what it says.
+	CancelFirst bool `json:"cancel_first,omitempty"`
 }
 
 func genF(t *rapid.T) FPlan {
@@ -578,7 +581,7 @@ func genF(t *rapid.T) FPlan {
 		VType: rapid.SampledFrom([]string{"", "", "int0", "any-nil", "error-nil", "ptr-nil", "any-int"}).Draw(t, "vtype")}
 	for n := rapid.IntRange(1, 6).Draw(t, "n"); n > 0; n-- {
 		p.Waiters = append(p.Waiters, FW{StartMs: rapid.SampledFrom([]int{0, 5, 10, 15, 30}).Draw(t, "start"),
-			Timeout: rapid.SampledFrom([]int{0, 0, 3, 10, 50}).Draw(t, "timeout"), Plain: rapid.Bool().Draw(t, "plain"), CancelOnly: rapid.Bool().Draw(t, "cancelonly"), Late: rapid.IntRange(0, 3).Draw(t, "late") == 0, Detached: rapid.IntRange(0, 4).Draw(t, "detached") == 0})
+			Timeout: rapid.SampledFrom([]int{0, 0, 3, 10, 50}).Draw(t, "timeout"), Plain: rapid.Bool().Draw(t, "plain"), CancelOnly: rapid.Bool().Draw(t, "cancelonly"), Late: rapid.IntRange(0, 3).Draw(t, "late") == 0, Detached: rapid.IntRange(0, 4).Draw(t, "detached") == 0, CancelFirst: rapid.IntRange(0, 2).Draw(t, "cancelfirst") == 0})
 	}
 	return p
 }
@@ -621,6 +624,9 @@ func runFT[T comparable](p FPlan, val T) (vk.Outcome, error) {
 					cancel := func() {}
 					if wt.Timeout > 0 && !wt.CancelOnly {
 						ctx, cancel = sk.WithTimeout(ctx, time.Duration(wt.Timeout)*time.Millisecond)
+						if wt.Late && wt.CancelFirst {
+							cancel()
+						}
 						if wt.Late {
 							time.Sleep(time.Duration(wt.Timeout) * time.Millisecond)
 						}
@@ -655,6 +661,10 @@ func runFT[T comparable](p FPlan, val T) (vk.Outcome, error) {
 						errs[i] = vk.Violf("future-early", "waiter %d returned at %dms, Fill is at %dms", i, at, p.FillAt)
 					} else if want := max(callAt, p.FillAt); at != want {
 						errs[i] = vk.Violf("future-late", "waiter %d returned at %dms, want %dms", i, at, want)
+					}
+				case late && wt.CancelFirst:
+					if err != context.Canceled || at != callAt {
+						errs[i] = vk.Violf("future-error", "waiter %d: its context had been cancelled (and its deadline had passed since) when it called WaitContext at %dms: returned %v at %dms, want context.Canceled at once", i, callAt, err, at)
 					}
 				case wt.Timeout > 0 && (errors.Is(err, context.DeadlineExceeded) || (wt.CancelOnly && errors.Is(err, context.Canceled))):
 					if at != deadline || deadline > p.FillAt && wt.StartMs >= p.FillAt && !late {
